@@ -392,6 +392,11 @@ def shard(ctx):
             doc = dict(doc)
             doc["e"] = {"": {"x": rng.choice(SCALARS[:12]), "": rng.choice(SCALARS[:12]), "l": [rng.choice(SCALARS[:12]), {"": rng.choice(SCALARS[:12])}]}, "x": rng.choice(SCALARS[:12])}
             ctx.res.counts["documents_with_empty_string_keys"] += 1
+        if isinstance(doc, dict) and t % 3 == 0:
+            # a list with more than ten elements (ingress rules, tags): the paths of elements 9, 10, 11 .. and of what lies beneath them
+            doc = dict(doc)
+            doc["w"] = [rng.choice(SCALARS[:12]) if rng.random() < 0.6 else {"c": rng.choice(SCALARS[:12]), "l": [rng.choice(SCALARS[:12])]} for _ in range(rng.randint(11, 14))]
+            ctx.res.counts["documents_with_long_lists"] += 1
         for sname in ser.STYLES:
             check_doc(ctx, rng, doc, sname)
 
